@@ -91,9 +91,17 @@ INVALID_FORMS = [
     ("fractional-id", {"jsonrpc": "2.0", "id": 1.5, "result": {}}),
     ("numeric-method", {"jsonrpc": "2.0", "method": 5}),
     ("error-not-object", {"jsonrpc": "2.0", "id": 2, "error": "boom"}),
+    ("id-array", {"jsonrpc": "2.0", "id": [1], "result": {}}), ("id-object", {"jsonrpc": "2.0", "id": {"a": 1}, "method": "m"}),
+    ("params-scalar", {"jsonrpc": "2.0", "method": "m", "params": 5}),
+    ("error-array", {"jsonrpc": "2.0", "id": 2, "error": [1]}), ("result-and-error-string", {"jsonrpc": "2.0", "id": 3, "result": 1, "error": "x"}),
     ("nested-empty-array", []),
     ("nested-array-of-response", [{"jsonrpc": "2.0", "id": 9, "result": {}}]),
 ]
+
+
+# forms that one of the validation backends coerces instead of rejecting (true -> 1, 1.5 -> "1.5", 5 -> "5"): which members a backend
+# accepts is C09's subject; they are used only where the library's own parser is asked first (parser_decides)
+COERCIBLE_FORMS = [("id-boolean", {"jsonrpc": "2.0", "id": True, "result": {}})]
 
 
 # ---------------------------------------------------------------------------
@@ -522,9 +530,21 @@ def _run_handshake(cfg) -> Dict[str, Any]:
 
 def _run_forms(cfg) -> Dict[str, Any]:
     """Every invalid member form at every position of a batch with valid neighbours, in both modes."""
-    name, form = INVALID_FORMS[cfg["form"]]
+    name, form = (INVALID_FORMS + COERCIBLE_FORMS)[cfg["form"]]
     if classify(form)[0] is not None:
         raise core.HarnessError(f"invalid form {name} is valid per the envelope reference")
+    if cfg.get("parser_decides"):
+        # relational oracle for a second backend: a member the library's OWN parser refuses must be dropped alone
+        import copy as _copy
+
+        from chuk_mcp.protocol.messages.json_rpc_message import parse_message
+
+        try:
+            parse_message(_copy.deepcopy(form)) if isinstance(form, (dict, list)) else (_ for _ in ()).throw(ValueError("not an object"))
+            return {"outcome": "forms:accepted-by-this-backend", "violations": [],
+                    "counters": {"form-accepted-by-this-backend(recorded, C09's subject):" + name: 1}}
+        except Exception:  # noqa: BLE001
+            pass
     version = cfg["version"]
     viol: List[dict] = []
     cnt: Dict[str, int] = {"sequences": 0, "steps": 0}
@@ -1382,9 +1402,57 @@ def _run_entry(cfg) -> Dict[str, Any]:
         viol.append({"sig": {"class": "loop-error", "scenario": "stdio_client_with_initialize"}, "msg": f"{errors[:2]}; {where}"})
     return {"outcome": "entry:" + ("accepting" if ref_accepts(answer) else "rejecting"), "violations": viol[:12], "counters": cnt}
 
+# ---------------------------------------------------------------------------
+# (k) the same member-level histories under the Pydantic-free fallback backend (a child interpreter)
+# ---------------------------------------------------------------------------
+def _run_fallback(cfg) -> Dict[str, Any]:
+    """Runs the inner configurations in a fresh interpreter started with MCP_FORCE_FALLBACK=1 (the backend is
+    chosen when chuk_mcp is imported) and folds their observations into one."""
+    import os
+    import subprocess
+    import sys
+
+    env = dict(os.environ, MCP_FORCE_FALLBACK="1")
+    p = subprocess.run([sys.executable, "-m", "vf.checks.c13"], input=json.dumps(cfg["inner"]), env=env,
+                       capture_output=True, text=True, timeout=600)
+    if p.returncode != 0:
+        raise core.HarnessError(f"fallback worker failed ({p.returncode}): {p.stderr[-400:]}")
+    doc = json.loads(p.stdout.strip().splitlines()[-1])
+    if doc.get("pydantic_backend") is not False:
+        raise core.HarnessError(f"fallback worker did not run on the fallback backend: {doc.get('pydantic_backend')!r}")
+    viol: List[dict] = []
+    cnt: Dict[str, int] = {"fallback-blocks": len(cfg["inner"])}
+    outs = set()
+    for o in doc["obs"]:
+        outs.add(str(o.get("outcome")))
+        for k, v in (o.get("counters") or {}).items():
+            if not k.startswith(("tr:", "st:")):
+                cnt[k] = cnt.get(k, 0) + v
+        for v in o.get("violations") or []:
+            v["sig"] = {**(v.get("sig") or {}), "backend": "fallback"}
+            v["msg"] = "[MCP_FORCE_FALLBACK=1] " + str(v.get("msg", ""))
+            viol.append(v)
+    return {"outcome": "fallback:" + "+".join(sorted(outs))[:200], "violations": viol[:12], "counters": cnt}
+
+
+def _worker_main() -> None:
+    import logging
+    import sys
+
+    logging.disable(logging.CRITICAL)
+    cfgs = json.loads(sys.stdin.read())
+    from chuk_mcp.protocol import mcp_pydantic_base as B
+
+    obs = [run_one(None, c) for c in cfgs]
+    for o in obs:
+        o.pop("prefix", None)
+    sys.stdout.write("\n" + json.dumps({"pydantic_backend": bool(getattr(B, "PYDANTIC_AVAILABLE", None)), "obs": obs}, default=repr) + "\n")
+
 
 def run_one(ctl: explorer.Ctl, cfg: Dict[str, Any]) -> Dict[str, Any]:
     part = cfg["part"]
+    if part == "fallback":
+        return _run_fallback(cfg)
     if part == "entry":
         return _run_entry(cfg)
     if part == "pending":
@@ -1477,8 +1545,8 @@ def run(tier: str, only=None) -> core.Result:
     out = explorer.explore(RUN, cfgs)
     sched.absorb(res, name, RUN, out, cfgs)
     samples += _pick(name, cfgs)
-    sched.debug_pass(res, name, RUN, cfgs, every=(8 if tier == "quick" else 160))
-    sched.debug_pass(res, "a-decision-function-date-grid", RUN, [{"part": "grid", "year": 2025, "entry": True}, {"part": "specials"}])
+    sched.debug_pass(res, name, RUN, cfgs, every=(32 if tier == "quick" else 160))
+    sched.debug_pass(res, "a-decision-function-date-grid", RUN, [{"part": "grid", "year": 2025, "m0": 0, "m1": 25, "entry": True}, {"part": "specials"}])
 
     # (c) handshake and invalid forms
     cfgs = [{"part": "handshake", "preferred": p, "answer": a} for p in range(3) for a in range(3)]
@@ -1547,6 +1615,15 @@ def run(tier: str, only=None) -> core.Result:
     sched.absorb(res, "i-several-lines-in-one-read", RUN, out, ocfgs)
     samples += _pick("i-several-lines-in-one-read", ocfgs)
     sched.debug_pass(res, "i-several-lines-in-one-read", RUN, ocfgs, every=13)
+    # (k) member-level histories again under the fallback backend
+    inner_forms = [{"part": "forms", "form": i, "version": v, "parser_decides": True}
+                   for i in range(len(INVALID_FORMS) + len(COERCIBLE_FORMS)) for v in (None, "2025-03-26", "2025-06-18")]
+    inner_seq = [{"part": "seq", "prefix": [a], "last": "full"} for a in ([_idx(["v", 1]), _idx(["v", 0]), _idx(["s", "R"])])]
+    fcfgs = [{"part": "fallback", "inner": inner_forms[i:i + 10]} for i in range(0, len(inner_forms), 10)] \
+        + [{"part": "fallback", "inner": [c]} for c in inner_seq]
+    out = explorer.explore(RUN, fcfgs)
+    sched.absorb(res, "k-fallback-backend-member-histories", RUN, out, fcfgs, min_outcomes=1)
+    samples += [{"part": "k-fallback-backend-member-histories", "index": 0, "case": {"inner": "forms x versions and 3 x 128 sequences, MCP_FORCE_FALLBACK=1"}}]
     ecfgs = [{"part": "entry", "preferred": p, "answer": a, "batch": k}
              for p in (None, 0, 1, 2) for a in range(3) for k in ("RN", "R", "", "XN", "RXNR")]
     out = explorer.explore(RUN, ecfgs)
@@ -1601,6 +1678,7 @@ def run(tier: str, only=None) -> core.Result:
                                  "not_witnessed_recorded": cnt.get("one-read/ordering-not-witnessed(recorded, not judged)", 0)}
     cov["per_request_streams_recorded"] = {k: v for k, v in cnt.items() if k.startswith("per-request-stream-")}
     cov["version_mention_scenarios"] = cnt.get("version-mention-scenarios", 0)
+    cov["fallback_backend_recorded"] = {k: v for k, v in cnt.items() if k.startswith("form-accepted-by-this-backend")}
     cov["congested_scenarios"] = cnt.get("congested-scenarios", 0)
     cov["handshakes_answered_inside_a_batch"] = cnt.get("inbatch-handshakes", 0)
     cov["mid_batch_version_switches"] = cnt.get("mid-batch-switches", 0)
@@ -1623,7 +1701,7 @@ def run(tier: str, only=None) -> core.Result:
         "StdioClient + scripted child, every step (hence every shorter sequence) is judged against the model. canonical state = negotiated "
         "version (the only field _process_message_data consults; streams are drained after every step); states/transitions = distinct "
         "canonical states / distinct (state, operation) pairs reached. (c) 3x3 real handshakes (preferred x server answer) x 121 batches; "
-        "14 invalid member forms x 6 positions x 6 versions. (d) congested outgoing side: child not reading its stdin, application queues "
+        "19 invalid member forms x 6 positions x 6 versions. (d) congested outgoing side: child not reading its stdin, application queues "
         f"{CONGEST_N} messages (buffer is 100) before / after {len(CONGEST_BATCHES)} batch-line sets arrive at {CONGEST_VERSIONS}, then the child resumes: "
         "the child's stdin must hold every application message once, in order, and exactly one -32600 line per rejected batch line. "
         "(e) the same StdioTransport object (and, recorded only, the same bare StdioClient) entered 2-3 times with every version pair / triple: "
@@ -1642,7 +1720,9 @@ def run(tier: str, only=None) -> core.Result:
         "and at the moment of the call nothing behind the trigger had been buffered, received or written) - then everything behind the trigger follows v. "
         "(j) the entry point stdio_client_with_initialize(preferred_version in {none, each supported}) against a child that sends a batch after reading "
         "`initialize` but before answering it (answer = each supported version) and again after the handshake: the first must not be refused (nothing is "
-        "negotiated yet), the second follows the answered version. A slice of every part is re-run with library logging at DEBUG. distinct_nontrivial = distinct observation digests of the blocks"
+        "negotiated yet), the second follows the answered version. (k) the invalid-member table (19 forms + 1 coercible incl. wrongly TYPED members: id array / object / boolean, scalar params, error string / array) at 3 versions and "
+        "3 x 128 two-step sequences are run again in a child interpreter with MCP_FORCE_FALLBACK=1 (Pydantic-free backend), same oracle. "
+        "A slice of every part is re-run with library logging at DEBUG. distinct_nontrivial = distinct observation digests of the blocks"
     )
     res.assumptions = [
         "the scripted process implements the subset of anyio.abc.Process the transport uses",
@@ -1665,6 +1745,12 @@ def run(tier: str, only=None) -> core.Result:
         "whether a pending per-request stream itself receives its response is recorded (per_request_streams_recorded), the statement speaks about the read stream",
         "a batch that arrives while the handshake of stdio_client_with_initialize is in flight: its members are consumed by the waiting initialize request, so only "
         "'no -32600 line is written' is judged for it",
+        "fallback backend: a form is used only if the library's own parser (in that backend) refuses it - some are coerced instead (true -> 1, 1.5 -> '1.5', "
+        "5 -> '5'), which is backend agreement, C09's subject; they are recorded under form-accepted-by-this-backend",
         "under congestion the position of the -32600 line among the application's messages is not prescribed, only its presence exactly once",
     ]
     return res
+
+
+if __name__ == "__main__":
+    _worker_main()
